@@ -96,6 +96,16 @@ def run(ctx):
         from .c08 import check_largest_component
 
         check_largest_component(ctx, res)
+    # the order / size filter of subhypergraph_largest_component chooses which hyperedges define CONNECTIVITY; what is returned is the
+    # sub-hypergraph INDUCED by the component's nodes - all hyperedges inside it, of every size
+    with res.guard("X-INDUCED"):
+        res.rules["X-INDUCED"] = "subhypergraph_largest_component hands its order / size filter to the component search only, never to the induced-sub-hypergraph extraction"
+        lv_ = ctx.view("Hypergraph.subhypergraph_largest_component")
+        bad_ = [c_ for c_ in _wnn(lv_.fi.node) if isinstance(c_, _ast.Call) and isinstance(c_.func, _ast.Attribute) and c_.func.attr == "subhypergraph" and any(k.arg in ("order", "size", "orders", "sizes") for k in c_.keywords)]
+        if bad_:
+            res.violation("X-INDUCED", lv_.fi.short, _norm(bad_[0])[:90], "filter-not-forwarded", f"`{_norm(bad_[0])[:60]}` restricts the extract to hyperedges of the requested size: hyperedges of other sizes that lie inside the component are dropped with their weights and metadata, so the result is not the induced sub-hypergraph", _loc(lv_.fi, bad_[0]))
+        else:
+            res.ok("X-INDUCED", lv_.fi.short, "self.subhypergraph(<component nodes>)", "filter-not-forwarded", _loc(lv_.fi, lv_.fi.node))
     with res.guard("F.check_forwardingctx, res, Hypergraph.subhypergraph_largest_component"):
         F.check_forwarding(ctx, res, ["Hypergraph.subhypergraph_largest_component", "cc.largest_component"])
     res.assumptions += [
